@@ -45,7 +45,9 @@ def expand(s):
 
 
 class Geom(object):
-    def __init__(self, W, wrap_max, symbols, right_percent, markers, fill, ln=True):
+    def __init__(self, W, wrap_max, symbols, right_percent, markers, fill, ln=True, dist="1", mll=None):
+        self.dist = dist            # max-line-distance: "1" pairs i-th with i-th; "0.6" = delta's own pairing
+        self.mll = mll              # --max-line-length
         self.W = W
         self.wrap_max = wrap_max
         self.symbols = symbols      # (left, right, right-prefix)
@@ -55,15 +57,18 @@ class Geom(object):
         self.ln = ln
 
     def label(self):
-        return "W=%d,wrap=%s,sym=%s,rp=%s,markers=%s,fill=%s,ln=%s" % (
+        return "W=%d,wrap=%s,sym=%s,rp=%s,markers=%s,fill=%s,ln=%s%s%s" % (
             self.W, self.wrap_max, "".join(self.symbols), self.right_percent, self.markers,
-            self.fill, self.ln)
+            self.fill, self.ln, ",distance=" + self.dist if self.dist != "1" else "",
+            ",max-line-length=" + self.mll if self.mll else "")
 
     def opts(self):
         o = {"side-by-side": True, "tabs": str(TABS), "wrap-max-lines": self.wrap_max,
              "wrap-left-symbol": self.symbols[0], "wrap-right-symbol": self.symbols[1],
              "wrap-right-prefix-symbol": self.symbols[2],
-             "wrap-right-percent": str(self.right_percent), "max-line-distance": "1"}
+             "wrap-right-percent": str(self.right_percent), "max-line-distance": self.dist}
+        if self.mll:
+            o["max-line-length"] = self.mll
         if self.fill == "ansi":
             o["width"] = None           # width comes from the pty
             o["line-fill-method"] = "ansi"
@@ -205,7 +210,7 @@ def check_case(out, g, spec):
         if gl[i]["row"] != gr[i]["row"]:
             return "unchanged line starts on row %d left but row %d right" % (gl[i]["row"], gr[i]["row"])
     # paired lines (max-line-distance 1: i-th with i-th) start on the same row
-    for i in range(min(len(spec["minus"]), len(spec["plus"]))):
+    for i in range(min(len(spec["minus"]), len(spec["plus"])) if g.dist == "1" else 0):
         if gl[nz + i]["row"] != gr[nz + i]["row"]:
             return "paired lines start on different rows (%d, %d)" % (gl[nz + i]["row"], gr[nz + i]["row"])
     return None
@@ -243,6 +248,9 @@ def specs_for(content):
     # the old-file numbers gain a digit inside the hunk (9999 -> 10000) while the new-file numbers do not
     yield {"starts": (9998, 9990), "zero": [content], "minus": [content + "a", content], "plus": ["a" + content]}
     yield {"starts": (9990, 9998), "zero": [content], "minus": [content + "a"], "plus": ["a" + content, content]}
+    # a removed line whose partner (under delta's own pairing) comes after added lines that are no partners
+    yield {"zero": [], "minus": [content + " same same same q"], "plus": ["zz", "yy", content + " same same same r"]}
+    yield {"zero": ["z"], "minus": ["uu", content + " same same same q"], "plus": ["zz", "yy", "xx", content + " same same same r", "ww"]}
 
 
 def run_task(task):
@@ -323,6 +331,13 @@ def geometries(tier):
         gs.append(Geom(W, "2", DEFAULT_SYM, 37, True, "spaces"))
         gs.append(Geom(W, "2", DEFAULT_SYM, 37, False, "ansi"))
         gs.append(Geom(W, "unlimited", ASCII_SYM, 50, True, "ansi"))
+    # delta's own pairing (default distance) instead of the forced i-th with i-th
+    for W in ([20, 40] if tier == "quick" else [18, 20, 24, 40, 41]):
+        gs.append(Geom(W, "2", DEFAULT_SYM, 37, False, "spaces", dist="0.6"))
+        gs.append(Geom(W, "unlimited", DEFAULT_SYM, 37, False, "spaces", dist="0.6"))
+    # unlimited wrapping with a small --max-line-length: wrapping is lossless, so the limit must not cut
+    for W in ([20, 40] if tier == "quick" else [18, 20, 24, 40]):
+        gs.append(Geom(W, "unlimited", DEFAULT_SYM, 37, False, "spaces", mll="10"))
     # with markers kept one more column is needed
     return [g for g in gs if (g.W // 2 - 6 - (1 if g.markers else 0)) >= 3]
 
